@@ -26,6 +26,8 @@ import (
 	"sort"
 	"strings"
 	"sync"
+	"sync/atomic"
+	"syscall"
 	"testing"
 	"testing/synctest"
 	"time"
@@ -68,8 +70,10 @@ func classify(err error) string {
 
 	msg := err.Error()
 
+	var apiErr *eth2api.Error
+
 	switch {
-	case errors.Is(err, errInjected):
+	case errors.Is(err, errInjected) || (errors.As(err, &apiErr) && apiErr.StatusCode == 500):
 		return "bn"
 	case errors.Is(err, context.Canceled):
 		return "ctx"
@@ -108,12 +112,37 @@ func orEmpty(v any) any {
 	return []any{}
 }
 
+// beat counts the driver's steps.  A component that spins without ever blocking (a select that is always ready) never lets
+// synctest.Wait() return: the watchdog (a goroutine outside the bubbles, on the wall clock) then records the hang -- no spec
+// step matches it -- flushes the trace and ends the process; the remaining schedules are not run.
+var beat atomic.Int64
+
+func watchdog(tr *drv.Tracer) {
+	last, since := beat.Load(), time.Now()
+	for {
+		time.Sleep(time.Second)
+
+		if now := beat.Load(); now != last {
+			last, since = now, time.Now()
+			continue
+		}
+
+		if time.Since(since) > 60*time.Second {
+			tr.Emit(drv.Step{"ev": "Hang"})
+			tr.Close()
+			syscall.Exit(0)
+		}
+	}
+}
+
 func TestExec(t *testing.T) {
 	drv.QuietLogs(t)
 	scheds := drv.ReadSchedules(t)
 	tr := drv.NewTracer(t)
 
 	defer tr.Close()
+
+	go watchdog(tr)
 
 	for i, s := range scheds {
 		if len(s) == 0 {
@@ -179,7 +208,7 @@ func (h *sHarness) truth(req, st drv.Step) drv.Step {
 	}
 
 	// "zero" is an answer to a Spec request, "404" to a block request: for any other request they are plain errors
-	if how := drv.Str(st["how"]); (how == "zero" && drv.Str(req["k"]) != "spec") || (how == "404" && drv.Str(req["k"]) != "block") {
+	if how := drv.Str(st["how"]); (how == "zero" && drv.Str(req["k"]) != "spec") || ((how == "404" || how == "500") && drv.Str(req["k"]) != "block") {
 		res["how"] = "err"
 	}
 
@@ -399,6 +428,8 @@ func (b sbn) SignedBeaconBlock(ctx context.Context, opts *eth2api.SignedBeaconBl
 		return &eth2api.Response[*eth2spec.VersionedSignedBeaconBlock]{Data: signedBlock(drv.Str(blk["ver"]), drv.Num(blk["tok"]), drv.Num(blk["ntx"]))}, nil
 	case "404":
 		return nil, &eth2api.Error{Method: "GET", Endpoint: "/eth/v2/beacon/blocks/" + opts.Block, StatusCode: 404, Data: []byte("not found")}
+	case "500":
+		return nil, &eth2api.Error{Method: "GET", Endpoint: "/eth/v2/beacon/blocks/" + opts.Block, StatusCode: 500, Data: []byte("verif:injected")}
 	}
 
 	return nil, errInjected
@@ -737,6 +768,8 @@ func runS(t *testing.T, tr *drv.Tracer, sid int, sched []drv.Step) {
 	tr.Emit(drv.Step{"ev": "Reset", "sid": sid, "mode": "S", "spe": int(h.spe)})
 
 	for _, st := range sched[1:] {
+		beat.Add(1)
+
 		switch drv.Str(st["ev"]) {
 		case "Call":
 			id, n, op := drv.Num(st["c"]), drv.Num(st["n"]), drv.Str(st["op"])
@@ -884,6 +917,7 @@ func runS(t *testing.T, tr *drv.Tracer, sid int, sched []drv.Step) {
 
 	// nothing may stay blocked inside the bubble: whatever still waits is answered with an error
 	for range 1000 {
+		beat.Add(1)
 		h.mu.Lock()
 		ids := []int{}
 		for id := range h.pending {
@@ -1158,6 +1192,8 @@ func runL(t *testing.T, tr *drv.Tracer, sid int, sched []drv.Step) bool {
 	}
 
 	for _, st := range sched[1:] {
+		beat.Add(1)
+
 		switch drv.Str(st["ev"]) {
 		case "Call":
 			id, op, tok := drv.Num(st["c"]), drv.Str(st["op"]), drv.Num(st["tok"])
@@ -1301,6 +1337,8 @@ func runL(t *testing.T, tr *drv.Tracer, sid int, sched []drv.Step) bool {
 
 	// drain: every waiting connect fails, the ticker runs until everything has returned
 	for i := 0; !h.allReturned(); i++ {
+		beat.Add(1)
+
 		if i > 2000 {
 			tr.Emit(drv.Step{"ev": "Hang"})
 
@@ -1547,6 +1585,8 @@ func runV(t *testing.T, tr *drv.Tracer, sid int, sched []drv.Step) bool {
 	}
 
 	for _, st := range sched[1:] {
+		beat.Add(1)
+
 		switch drv.Str(st["ev"]) {
 		case "Call":
 			launch(st)
@@ -1590,6 +1630,8 @@ func runV(t *testing.T, tr *drv.Tracer, sid int, sched []drv.Step) bool {
 	}
 
 	for len(outstanding) > 0 {
+		beat.Add(1)
+
 		ids := []int{}
 		for id := range atGate {
 			ids = append(ids, id)
